@@ -327,7 +327,7 @@ func main() {
 	runner.Main(&runner.Harness{
 		ID:    "C04",
 		Level: "model_checking",
-		Rule:  "for every shipped matcher configuration (default + filtered, TCP- and UDP-like addresses) and for the proxy_protocol HANDLER (default and with allow lists; a v1/v2 header grid over every command x family/transport incl. LOCAL and UNSPEC, TLVs, self-consistent lengths, as additional corpus): every byte string of length <=5 (6 thorough) over a per-matcher alphabet (generic boundary bytes + the literals of the matcher's own source), plus for every byte-slice/string literal of the module's own tests: every prefix, trailing extensions and every single-position substitution (alphabet, +-1, bit flips); each input is loaded by the real prefetch and judged by the real Match under freeze/unfreeze; oracle: no panic, allocation per call <= 64 x MaxMatchingBytes (measured with runtime.MemStats.TotalAlloc, single-threaded worker)",
+		Rule:  "for every shipped matcher configuration (default + filtered, TCP- and UDP-like addresses) and for the proxy_protocol HANDLER (default and with allow lists; a v1/v2 header grid over every command x family/transport incl. LOCAL and UNSPEC, TLVs, self-consistent lengths, as additional corpus): every byte string of length <=5 (6 thorough) over a per-matcher alphabet (generic boundary bytes + the literals of the matcher's own source), plus for every byte-slice/string literal of the module's own tests: every prefix, trailing extensions and every single-position substitution (alphabet, +-1, bit flips); each input is loaded by the real prefetch and judged by the real Match under freeze/unfreeze; oracle: no panic, allocation per call <= 64 x MaxMatchingBytes (measured with runtime.MemStats.TotalAlloc, single-threaded worker); every configuration also in its placeholder forms (all string options given as {env.*} placeholders holding the original values; each string option in turn a placeholder that resolves to nothing), driven with the corpus messages and all their prefixes",
 		Assumptions: []string{
 			"inputs outside the enumerated alphabets/mutation sets are not covered",
 			"allocation is measured per batch of 256 calls against limit + 256 x (baseline of an empty evaluation + 1 KiB) and re-measured per call when a batch exceeds the per-call limit (calls are deterministic)",
